@@ -2,7 +2,7 @@
 from hypothesis import strategies as st
 
 from ..runner import Shard, Violation
-from ..tools import ITER_TOOLS
+from ..tools import ITER_TOOLS, TOOLS
 from ..gen import base_case, features
 from ..core import expect_return, run_async, run_sync, consumer_view, first_diff
 
@@ -84,6 +84,17 @@ def cases(draw, name, tier):
             if s.get("alias") is not None and case["srcs"][s["alias"]]["fl"] == "list":
                 case["srcs"][s["alias"]]["fl"] = "iter"  # aliasing is about one-shot iterators
     case["keep"] = True  # signatures of everything yielded are taken again at the very end
+    lists = [i for i, s in enumerate(case["srcs"]) if s["fl"] == "list" and s.get("alias") is None]
+    if lists and case["plan"] and draw(st.integers(0, 3)) == 0:
+        # the caller mutates a list it handed over while the tool is being consumed: a tool must neither
+        # alias the caller's list as its own storage nor snapshot it early
+        for k in range(draw(st.integers(1, 2))):
+            i = draw(st.sampled_from(lists))
+            case["srcs"][i]["mutable"] = True
+            how = draw(st.sampled_from(["append", "append", "pop", "clear", "insert0"]))
+            case["plan"].insert(draw(st.integers(0, len(case["plan"]))), ["mutate", i, how, 900 + k])
+        if not TOOLS[name].infinite:
+            case["plan"] = case["plan"] + [0, 0]  # an append may have made the input longer
     if name == "tee" and case["params"]["n"] >= 2 and case["plan"]:
         # a child may also be closed / dropped early: its siblings must be unaffected
         k = case["params"]["n"]
